@@ -114,7 +114,13 @@ def run(bdir, repo):
             pre = txt[:m.start()].split("\n")
             cond = [l for l in pre if re.match(r"^\s*#\s*(if|elif|else|endif)", l)]
             guarded = cond[-1].strip() if cond else None
-        res["sources"].append({"file": os.path.relpath(s, repo), "target": TARGET_OF.get(os.path.basename(s), "?"), "note_directive": bool(m),
+        # every build assembles every .S file: for a target or backend selection that deselects the file's code the object is empty,
+        # and it must carry the note all the same - preprocess with no target macro at all (only __ELF__)
+        rc_e, out_e = sh(["gcc", "-E", "-undef", "-D__ELF__", "-x", "assembler-with-cpp", "-I" + os.path.join(repo, "src"),
+                          "-I" + os.path.join(repo, "src", "core"), "-I" + os.path.join(repo, "src", "masking"), s])
+        desel = rc_e == 0 and bool(NOTE_RE.search(out_e))
+        res["sources"].append({"file": os.path.relpath(s, repo), "target": TARGET_OF.get(os.path.basename(s), "?"), "note_directive": bool(m) and desel,
+                               "note_when_code_deselected": desel,
                                "directive": m.group(0).strip() if m else None, "nearest_conditional": guarded})
     # (d) plain (non-CMake) build of the host files
     x86 = [s for s in sorted(glob.glob(os.path.join(repo, "src", "*", "*-x86-64.S")))]
